@@ -12,9 +12,9 @@ VARIANTS = [
       rule='C17-FLAGS', key='verify:typechecking'),
     M('C17', 'detect-key-dropped-by-kwargs', E(FL, "        params['boolean_ints'] = True", "        params['bool_ints'] = True"), rule='C17-FLAGS', key='detect:bool_ints'),
     M('C17', 'unknown-argument-not-fatal', E(FL, "    if len(more) > 0:\n        print('Unexpected arguments %s\\n' % ' '.join(more),\n              parser.epilog, file=sys.stderr)\n        sys.exit(1)", "    if len(more) > 0:\n        print('Unexpected arguments %s\\n' % ' '.join(more),\n              parser.epilog, file=sys.stderr)"),
-      rule='C17-EXIT', key='verify_flags'),
+      rule='C17-FLAGTABLE', key='tdda verify --bogus'),
     M('C17', 'contradiction-exits-zero', E(FL, "        print('You must not specify both --output-fields and '\n              '--no-output-fields.', file=sys.stderr)\n        sys.exit(1)", "        print('You must not specify both --output-fields and '\n              '--no-output-fields.', file=sys.stderr)\n        sys.exit(0)"),
-      rule='C17-EXIT', key='detect_flags'),
+      rule='C17-FLAGTABLE', key='tdda detect'),
     M('C17', 'missing-input-checked-after-load', E(PV, "        path = params['df_path']\n        if path is not None and path != '-' and not os.path.isfile(path):\n            print('%s does not exist' % path)\n            sys.exit(1)\n        return verify_df_from_file(verbose=self.verbose, **params)", "        path = params['df_path']\n        v = verify_df_from_file(verbose=self.verbose, **params)\n        if path is not None and path != '-' and not os.path.isfile(path):\n            print('%s does not exist' % path)\n            sys.exit(1)\n        return v"),
       rule='C17-EXIT', key='missing-input'),
     M('C17', 'front-end-own-verifier', E(PV, "    df = load_df(df_path)\n    v = verify_df(df, constraints_path, **kwargs)", "    df = load_df(df_path)\n    from tdda.constraints.pd.constraints import PandasConstraintVerifier\n    PandasConstraintVerifier(df)\n    v = verify_df(df, constraints_path, **kwargs)"),
